@@ -16,7 +16,7 @@ fn keys_vec(m: &BTreeMap<u64, Vec<PageID>>) -> (r: Vec<u64>)
 // rule R3: `S.iter().cloned().collect()`  — BTreeSet::iter yields the elements in ascending order
 #[verifier::external_body]
 fn set_vec(s: &BTreeSet<PageID>) -> (r: Vec<u64>)
-    ensures ascending(r@), forall|x: u64| r@.contains(x) <==> s@.contains(x),
+    ensures ascending(r@), forall|x: u64| r@.contains(x) <==> s@.contains(x), r@.len() == s@.len(),
 {
     s.iter().cloned().collect()
 }
